@@ -80,4 +80,215 @@ def logRecord (e : Event) : Enc LogRecord :=
     spanId := (lookupLast "span_id" ps).bind (PV.castId 64)
     attributes := attrs }
 
+/-- `KindFilter::matches` (/repo/src/kind.rs:165-169): `props.pull::<Kind>("evt_kind") == Some(kind)`, where
+    `pull` is the default `get` (first match in enumeration order) followed by the cast -/
+def Event.isKind (e : Event) (k : Kind) : Bool :=
+  (lookupFirst "evt_kind" e.props).bind PV.castKind == some k
+
+/-! ### Traces: /repo/emitter/otlp/src/data/traces.rs:26-79, traces/span.rs:100-270 -/
+
+structure SpanEvent where
+  name : String
+  timeUnixNano : Nat
+  attributes : List (String × AnyValue)
+  deriving Inhabited
+
+structure SpanRecord where
+  scope : String
+  name : String
+  /-- `SpanKind::Unspecified` -/
+  kind : Nat
+  startTimeUnixNano : Nat
+  endTimeUnixNano : Nat
+  traceId : Option Nat
+  spanId : Option Nat
+  parentSpanId : Option Nat
+  attributes : List (String × AnyValue)
+  events : List SpanEvent
+  statusMessage : String
+  /-- `StatusCode`: Ok = 1, Error = 2 -/
+  statusCode : Nat
+  deriving Inhabited
+
+/-- the attributes one property contributes to a span (span.rs:131-166): kind, name, level, ids and `err`
+    are lifted -/
+def spanAttr (k : String) (v : PV) : Enc (List (String × AnyValue)) :=
+  if k = "evt_kind" ∨ k = "span_name" ∨ k = "lvl" ∨ k = "span_id" ∨ k = "span_parent" ∨ k = "trace_id" ∨ k = "err"
+  then .ok []
+  else (anyValue v.image).bind fun a => .ok [(k, a)]
+
+def spanAttrs : List (String × PV) → Enc (List (String × AnyValue))
+  | [] => .ok []
+  | (k, v) :: rest => (spanAttr k v).bind fun as => (spanAttrs rest).bind fun bs => .ok (as ++ bs)
+
+/-- span.rs:200-243: the conventional `exception` event built from the FIRST `err` property -/
+def exceptionEvent (time : Nat) (err : PV) : Enc SpanEvent :=
+  (anyValue err.image).bind fun a =>
+    let stack : List (String × AnyValue) := match err.error? with
+      | some (_, c :: cs) => [("exception.stacktrace", .str (stacktraceText (c :: cs)))]
+      | _ => []
+    .ok ⟨"exception", time, stack ++ [("exception.message", a)]⟩
+
+/-- `default_name_formatter` (traces.rs:26-34 / metrics.rs:37-45): the first value under `key`, else the message -/
+def nameOr (key : String) (e : Event) : String :=
+  match lookupFirst key e.props with
+  | some v => v.display
+  | none => e.msg
+
+/-- `none`: the event is not a span with a range extent, nothing is encoded (traces.rs:41-56) -/
+def spanRecord (e : Event) : Option (Enc SpanRecord) :=
+  if !e.isKind .span then none
+  else match e.extent with
+    | .range a b =>
+      let ps := e.deduped
+      let level := ((lookupLast "lvl" ps).bind PV.castLevel).getD .info
+      some ((spanAttrs ps).bind fun attrs =>
+        -- `has_err` is set while streaming the attributes; the value is then `props.get("err")` (span.rs:201)
+        let evs : Enc (List SpanEvent × String × Nat) :=
+          match (if (keys' ps).contains "err" then lookupFirst "err" e.props else none) with
+          | some err => (exceptionEvent b.otlpNanos err).bind fun ev => .ok ([ev], err.display, 2)
+          | none => .ok ([], level.display, match level with
+            | .debug => 1 | .info => 1 | .warn => 2 | .error => 2)
+        evs.bind fun (events, msg, code) => .ok {
+          scope := e.mdl
+          name := nameOr "span_name" e
+          kind := 0
+          startTimeUnixNano := a.otlpNanos
+          endTimeUnixNano := b.otlpNanos
+          traceId := (lookupLast "trace_id" ps).bind (PV.castId 128)
+          spanId := (lookupLast "span_id" ps).bind (PV.castId 64)
+          parentSpanId := (lookupLast "span_parent" ps).bind (PV.castId 64)
+          attributes := attrs
+          events := events
+          statusMessage := msg
+          statusCode := code })
+    | _ => none
+where
+  keys' (ps : List (String × PV)) : List String := ps.map Prod.fst
+
+/-! ### Metrics: /repo/emitter/otlp/src/data/metrics.rs:47-365, metrics/metric.rs -/
+
+/-- one extracted sample -/
+inductive Pt where
+  | int (i : Int)
+  | dbl (bits : UInt64)
+  deriving Inhabited
+
+mutual
+/-- `points_from_value` (metrics.rs:160-240): the `Extract` stream over the sval stream of `metric_value`.
+    `inSeq` is its flag; `none` = `sval::error()` (the value is not a number or a flat sequence of numbers).
+    Integers outside the i64 range arrive as number TEXT (default `u128/i128`) and are an error, bytes are a
+    sequence of `u8`, a non-empty map / record opens a tuple inside its sequence and is an error. -/
+def extractPts (inSeq : Bool) : V → Option (List Pt)
+  | .null => none
+  | .bool _ => none
+  | .text _ => none
+  | .uvar _ => none
+  | .int i => if inI64 i then some [.int i] else none
+  | .f64 bits _ _ => some [.dbl bits]
+  | .f32 bits _ _ => some [.dbl bits]
+  | .bytes bs => if inSeq then none else some (bs.map fun b => .int b.toNat)
+  | .seq xs => if inSeq then none else extractPtsList xs
+  | .tuple xs => if inSeq then none else extractPtsList xs
+  | .tvar _ xs => if inSeq then none else extractPtsList xs
+  | .map kvs => if inSeq then none else (if kvs.isEmpty then some [] else none)
+  | .record fs => if inSeq then none else (if fs.isEmpty then some [] else none)
+  | .svar _ fs => if inSeq then none else (if fs.isEmpty then some [] else none)
+  | .some v => extractPts inSeq v
+  | .nvar _ v => extractPts inSeq v
+def extractPtsList : List V → Option (List Pt)
+  | [] => some []
+  | x :: xs => match extractPts true x, extractPtsList xs with
+    | some a, some b => some (a ++ b)
+    | _, _ => none
+end
+
+def i64ToF (i : Int) : Float := Float.ofInt i
+
+/-- `SumPoints::push_point_*` (metrics.rs:262-291): integers are added exactly while the total fits an i64
+    (`checked_add`), an overflow turns the total into `+inf`, a double turns it into a double -/
+def sumStep (acc : Pt) (p : Pt) : Pt :=
+  match acc, p with
+  | .int c, .int v => if inI64 (c + v) then .int (c + v) else .dbl 0x7FF0000000000000
+  | .dbl c, .int v => .dbl (Float.ofBits c + i64ToF v).toBits
+  | .int c, .dbl v => .dbl (Float.ofBits v + i64ToF c).toBits
+  | .dbl c, .dbl v => .dbl (Float.ofBits c + Float.ofBits v).toBits
+
+def sumPts (ps : List Pt) : Pt := ps.foldl sumStep (.int 0)
+
+structure DataPoint where
+  startTimeUnixNano : Nat
+  timeUnixNano : Nat
+  value : Pt
+  attributes : List (String × AnyValue)
+  deriving Inhabited
+
+/-- `RawPointSet::into_points` (metrics.rs:330-360): the extent is spread evenly over several samples -/
+def spreadTimes (start time : Nat) (n : Nat) : List (Nat × Nat) :=
+  let step := (time - start) / n   -- `saturating_sub`, integer division
+  (List.range n).map fun i => (start + i * step, start + (i + 1) * step)
+
+def gaugePoints (start time : Nat) (attrs : List (String × AnyValue)) (pts : List Pt) : Option (List DataPoint) :=
+  match pts with
+  | [] => none
+  | [p] => some [⟨start, time, p, attrs⟩]
+  | _ => some ((spreadTimes start time pts.length).zip pts |>.map fun ((s, t), p) => ⟨s, t, p, attrs⟩)
+
+inductive MetricData where
+  /-- `Sum { aggregation_temporality, is_monotonic }` -/
+  | sum (temporality : Nat) (monotonic : Bool)
+  | gauge
+  deriving Inhabited
+
+structure MetricRecord where
+  scope : String
+  name : String
+  unit : String
+  data : MetricData
+  points : List DataPoint
+  deriving Inhabited
+
+/-- the attributes one property contributes to a metric (metrics.rs:91-113; after the repair
+    `fix: OTLP metric attributes come from de-duplicated properties` the loop runs over `props().dedup()`) -/
+def metricAttr (k : String) (v : PV) : Enc (List (String × AnyValue)) :=
+  if k = "metric_unit" ∨ k = "metric_name" ∨ k = "metric_value" ∨ k = "metric_agg" ∨ k = "span_id" ∨
+     k = "span_parent" ∨ k = "trace_id" ∨ k = "evt_kind"
+  then .ok []
+  else (anyValue v.image).bind fun a => .ok [(k, a)]
+
+def metricAttrs : List (String × PV) → Enc (List (String × AnyValue))
+  | [] => .ok []
+  | (k, v) :: rest => (metricAttr k v).bind fun as => (metricAttrs rest).bind fun bs => .ok (as ++ bs)
+
+/-- `none`: nothing is encoded — not a metric, no `metric_value`, or the value has no numeric samples
+    (metrics.rs:51-60, `points_from_value(..)?`). The attributes are collected BEFORE the samples are
+    extracted, so a panic of the any-value bridge wins over "nothing encoded". -/
+def metricRecord (e : Event) : Option (Enc MetricRecord) :=
+  if !e.isKind .metric then none
+  else match lookupFirst "metric_value" e.props with
+    | none => none
+    | some value =>
+      let (start, time, temporality) : Nat × Nat × Nat := match e.extent with
+        | .none => (0, 0, 0)
+        | .range a b => (a.otlpNanos, b.otlpNanos, 1)
+        | .point t => (t.otlpNanos, t.otlpNanos, 2)
+      let ps := e.deduped
+      match metricAttrs ps with
+      | .panic => some .panic
+      | .ok attrs =>
+        let unit := match lookupLast "metric_unit" ps with
+          | some u => u.display
+          | none => ""
+        let agg := (lookupFirst "metric_agg" e.props).bind PV.str?
+        let mk (data : MetricData) (points : List DataPoint) : Option (Enc MetricRecord) :=
+          some (.ok ⟨e.mdl, nameOr "metric_name" e, unit, data, points⟩)
+        match extractPts false value.image with
+        | none => none
+        | some pts =>
+          if agg = some "sum" then mk (.sum temporality false) [⟨start, time, sumPts pts, attrs⟩]
+          else if agg = some "count" then mk (.sum temporality true) [⟨start, time, sumPts pts, attrs⟩]
+          else match gaugePoints start time attrs pts with
+            | none => none
+            | some points => mk .gauge points
+
 end EmitModel.Encode
